@@ -399,6 +399,10 @@ def wicks(expr, rules: Rules = None, simplify_kronecker_deltas: bool = False):
     # break up any NO-objects, and evaluate commutators
     expr = expr.doit(wicks=True).expand()
 
+    # sympy collects adjacent identical operators in a power: a_p a_p = 0
+    if isinstance(expr, Pow) and isinstance(expr.base, FermionicOperator):
+        return S.Zero
+
     if isinstance(expr, Add):
         return Add(*[wicks(term, rules=rules,
                            simplify_kronecker_deltas=simplify_kronecker_deltas)
@@ -411,6 +415,10 @@ def wicks(expr, rules: Rules = None, simplify_kronecker_deltas: bool = False):
         for factor in expr.args:
             if factor.is_commutative:
                 c_part.append(factor)
+            elif isinstance(factor, Pow) and \
+                    isinstance(factor.base, FermionicOperator):
+                # a_p a_p = a^+_p a^+_p = 0
+                return S.Zero
             else:
                 op_string.append(factor)
 
